@@ -47,10 +47,10 @@ def run(chk):
                        "generated (log2 k a b) either b needs no statements or what remains of a after its statements is a "
                        "constant or a compiler temporary"]
     cc.register_matchers(chk)
-    chk.prove("Props/C01.v", ["Props/C01.vo", "Compiler/Run.vo"], [compiler_tables.translate])
+    chk.prove("Props/C01.v", ["Props/C01.vo", "Compiler/Run.vo", "Compiler/Valueless.vo"], [compiler_tables.translate])
     rng = chk.rng
     thorough = chk.tier == "thorough"
-    n1, n2, n3 = (4000, 4000, 2400) if thorough else (420, 420, 240)
+    n1, n2, n3 = (4000, 4000, 1600) if thorough else (380, 380, 200)
     progs = [cc.dress(rng, e, fault_p=0.0) for e in CORPUS]
     for p in progs[-1:]:
         p["vals"] = [("int", 5), ("int", 1), ("none",), ("none",)]
